@@ -6,8 +6,9 @@ CONSTANTS
   D = 1
   MaxEvents = 2
   MaxFails = 3
+  Extra = "any"
   Backoff = TRUE
-  Closed = FALSE
+  Closed = TRUE
   ObserveCb = FALSE
   TrackQuiet = FALSE
   UnitMs = 1000
